@@ -10,6 +10,7 @@ import (
 	"go/ast"
 	"go/token"
 	"sort"
+	"strconv"
 	"strings"
 )
 
@@ -276,16 +277,45 @@ func (c *trCtx) ret(x *ast.ReturnStmt) (string, error) {
 	}
 	var parts []string
 	for _, r := range x.Results {
+		if c.t.resTy == tyErr {
+			s, err := c.errValue(r)
+			if err != nil {
+				return "", err
+			}
+			parts = append(parts, s)
+			continue
+		}
 		s, _, err := c.expr(r, c.t.resTy)
 		if err != nil {
 			return "", err
 		}
 		parts = append(parts, s)
 	}
-	if len(parts) == 1 {
-		return parts[0], nil
+	val := parts[0]
+	if len(parts) > 1 {
+		val = "(" + strings.Join(parts, ", ") + ")"
 	}
-	return "(" + strings.Join(parts, ", ") + ")", nil
+	if c.loopRet != nil {
+		return c.loopRet(val), nil
+	}
+	return val, nil
+}
+
+// errValue: `nil` / `fmt.Errorf("literal")` / `errors.New("literal")` as Option String
+func (c *trCtx) errValue(e ast.Expr) (string, error) {
+	if id, ok := e.(*ast.Ident); ok && id.Name == "nil" {
+		return "(none : Option String)", nil
+	}
+	if call, ok := e.(*ast.CallExpr); ok && len(call.Args) == 1 {
+		fn := exprText(c.fset, call.Fun)
+		if lit, ok := call.Args[0].(*ast.BasicLit); ok && lit.Kind == token.STRING && (fn == "fmt.Errorf" || fn == "errors.New") {
+			s, err := strconv.Unquote(lit.Value)
+			if err == nil {
+				return "(some " + strconv.Quote(s) + ")", nil
+			}
+		}
+	}
+	return "", trErr("error value %s is outside the subset", exprText(c.fset, e))
 }
 
 func hasReturn(n ast.Node) bool {
@@ -425,7 +455,9 @@ func (c *trCtx) assigned(list []ast.Stmt) ([]string, error) {
 	ast.Inspect(&ast.BlockStmt{List: list}, func(n ast.Node) bool {
 		switch x := n.(type) {
 		case *ast.ReturnStmt:
-			bad = trErr("return inside a loop")
+			if !c.allowLoopReturn {
+				bad = trErr("return inside a loop")
+			}
 		case *ast.BranchStmt:
 			bad = trErr("%s inside a loop", x.Tok)
 		case *ast.AssignStmt:
@@ -465,6 +497,12 @@ func (c *trCtx) rangeStmt(x *ast.RangeStmt, rest trCont) (string, error) {
 	}
 	if st != tyStr {
 		return "", trErr("range over %s which is not a string / []byte", exprText(c.fset, x.X))
+	}
+	if id, ok := x.X.(*ast.Ident); ok && c.strVars[id.Name] && !c.t.rangeBytes {
+		return "", trErr("range over the string %s yields runes (target not marked rangeBytes)", id.Name)
+	}
+	if hasReturn(x.Body) {
+		return c.rangeReturn(x, s, rest)
 	}
 	state, err := c.assigned(x.Body.List)
 	if err != nil {
@@ -664,7 +702,7 @@ func translateTarget(repo string, t *trTarget) (string, interface{}, error) {
 	if fd == nil || fd.Body == nil {
 		return "", nil, trErr("function %s not found in %s", t.fn, t.file)
 	}
-	c := &trCtx{t: t, fset: fset, vars: map[string]trTy{}, depth: map[string]int{}, self: t.fn}
+	c := &trCtx{t: t, fset: fset, vars: map[string]trTy{}, depth: map[string]int{}, self: t.fn, strVars: map[string]bool{}}
 	var binders []string
 	for _, p := range t.params {
 		binders = append(binders, fmt.Sprintf("(%s : %s)", p.lean, p.leanTy))
@@ -677,6 +715,9 @@ func translateTarget(repo string, t *trTarget) (string, interface{}, error) {
 				return "", nil, trErr("parameter type %s is outside the subset", exprText(fset, fld.Type))
 			}
 			for _, n := range fld.Names {
+				if exprText(fset, fld.Type) == "string" {
+					c.strVars[n.Name] = true
+				}
 				c.vars[n.Name], c.depth[n.Name] = ty, 0
 				b := fmt.Sprintf("(%s : %s)", leanIdent(n.Name), leanTyOf(ty, c))
 				if t.recFuel {
@@ -759,4 +800,82 @@ func addTranslated(t trTarget) {
 			return translateTarget(repo, &tt)
 		},
 	})
+}
+
+// A `for _, b := range s` whose body may `return`: a left fold whose state is
+// `Option result` (some = the function has returned) – no other state is
+// supported, i.e. the body must not assign outer variables.
+func (c *trCtx) rangeReturn(x *ast.RangeStmt, s string, rest trCont) (string, error) {
+	if c.t.from != "" || c.t.retLean == "" {
+		return "", trErr("loop with return needs a whole-function target with retLean")
+	}
+	c.allowLoopReturn = true
+	state, err := c.assigned(x.Body.List)
+	c.allowLoopReturn = false
+	if err != nil {
+		return "", err
+	}
+	if len(state) != 0 {
+		return "", trErr("loop with return that also assigns %v", state)
+	}
+	key, val := "", ""
+	if id, ok := x.Key.(*ast.Ident); ok && id.Name != "_" {
+		key = id.Name
+	}
+	if x.Value != nil {
+		if id, ok := x.Value.(*ast.Ident); ok && id.Name != "_" {
+			val = id.Name
+		}
+	}
+	savedVars := map[string]trTy{}
+	for n, t := range c.vars {
+		savedVars[n] = t
+	}
+	savedDepth := map[string]int{}
+	for n, d := range c.depth {
+		savedDepth[n] = d
+	}
+	c.cur++
+	if key != "" {
+		c.vars[key], c.depth[key] = tyInt, c.cur
+	}
+	if val != "" {
+		c.vars[val], c.depth[val] = tyByte, c.cur
+	}
+	none := "(none : Option (" + c.t.retLean + "))"
+	savedRet := c.loopRet
+	c.loopRet = func(v string) string { return "(some " + v + ")" }
+	body, err := c.block(x.Body.List, func() (string, error) { return none, nil })
+	c.loopRet = savedRet
+	c.cur--
+	c.vars, c.depth = savedVars, savedDepth
+	if err != nil {
+		return "", err
+	}
+	list := s
+	pre, closers := "", 0
+	if key != "" {
+		list = fmt.Sprintf("(List.zip (List.range (List.length %s)) %s)", s, s)
+		pre += fmt.Sprintf("(let %s := (Int.ofNat x_.1); ", leanIdent(key))
+		closers++
+		if val != "" {
+			pre += fmt.Sprintf("(let %s := x_.2; ", leanIdent(val))
+			closers++
+		}
+	} else if val != "" {
+		pre += fmt.Sprintf("(let %s := x_; ", leanIdent(val))
+		closers++
+	}
+	r, err := rest()
+	if err != nil {
+		return "", err
+	}
+	if savedRet != nil {
+		return "", trErr("nested loops with return")
+	}
+	// `Option.or st (body)`: once the function has returned (`some`) nothing changes; `Option.getD`: the
+	// value returned from inside the loop, else what follows the loop (no `match`: the term stays
+	// rewritable by lemmas about List.foldl / Option.or)
+	fold := fmt.Sprintf("(List.foldl (fun st_ x_ => (Option.or st_ %s%s%s)) %s %s)", pre, body, strings.Repeat(")", closers), none, list)
+	return fmt.Sprintf("(Option.getD %s %s)", fold, r), nil
 }
